@@ -153,9 +153,43 @@ DoLookup == HasRef(s1.T) /\ \E k \in {Norm(Sc(s1.T, s1.u)), Norm(XMul(s1.a, Sc(s
         id == IF i = 0 THEN "-" ELSE OUnits(s1.T)[i].id
     IN  Step(s1, [ev |-> "Lookup", T |-> s1.T, by |-> "scale", key |-> k, out |-> [ok |-> [unit |-> id, qty |-> id]]])
 
+\* Rate<TQ, PQ>: rate * q and q / rate (src/rate.rs, codegen_impl_std_traits)
+RatePairs == {<<"Len", "Dur">>, <<"Dur", "Len">>}
+DoRate == <<s1.T, s2.T>> \in RatePairs /\ IsPow2(XAbs(s2.a)) /\ IsPow2(XAbs(s1.a)) /\
+    \E kind \in {"rxq", "qxr", "qdr"} :
+      LET TQ == s1.T  PQ == s2.T
+          rate == [ta |-> s1.a, tu |-> s1.u, pm |-> s2.a, pu |-> s2.u]
+          mulk == kind # "qdr"
+          OT == IF mulk THEN PQ ELSE TQ
+      IN  \E qu \in Units(OT) :
+            LET qa == Half(3)                                   \* the operand: 1.5 of unit qu
+                \* (q / unit.as_qty()) = qa / equiv_amount(1 unit -> qu) ; then / divisor * factor
+                one  == IF mulk THEN rate.pu ELSE rate.tu
+                den  == IF mulk THEN rate.pm ELSE rate.ta
+                num  == IF mulk THEN rate.ta ELSE rate.pm
+                inq  == DivPow2(qa, EquivAlgo(OT, Q(XOne, one), qu))
+                r    == Norm(XMul(DivPow2(inq, den), num))
+                ru   == IF mulk THEN rate.tu ELSE rate.pu
+            IN  Step(s1, [ev |-> "Rate", TQ |-> TQ, PQ |-> PQ, kind |-> kind, rate |-> rate,
+                          q |-> Q(qa, qu), out |-> OkQ(r, ru)])
+
+\* ConversionTable::convert over the model's no-reference type: same unit / first matching row / nothing
+ModelTables == {
+    <<>>,
+    <<[from |-> "Ta", to |-> "Tb", f |-> Half(4), o |-> Half(-6)], [from |-> "Ta", to |-> "Tb", f |-> Half(2), o |-> Half(2)],
+      [from |-> "Tb", to |-> "Tcc", f |-> Half(1), o |-> Half(0)]>>,
+    <<[from |-> "Tcc", to |-> "Ta", f |-> Half(-2), o |-> Half(1)], [from |-> "Ta", to |-> "Ta", f |-> Half(6), o |-> Half(6)]>> }
+DoTable == OKind(s1.T) = "noref" /\ \E tbl \in ModelTables, to \in Units(s1.T) :
+    LET rows == [i \in DOMAIN tbl |-> tbl[i] @@ [ref |-> OkA(Norm(XAdd(XMul(s1.a, tbl[i].f), tbl[i].o)))]]
+        i == FirstRow(rows, s1.u, to)
+        out == IF s1.u = to THEN OkQ(s1.a, s1.u)
+               ELSE IF i # 0 THEN OkQ(rows[i].ref.ok, to)
+               ELSE [ok |-> [none |-> TRUE]]
+    IN  Step(s1, [ev |-> "Table", T |-> s1.T, predefined |-> FALSE, rows |-> rows, v |-> Q(s1.a, s1.u), to |-> to, out |-> out])
+
 Swap == s1' = s2 /\ s2' = s1 /\ UNCHANGED <<last, depth>>
 
-Next == depth < MaxDepth /\ (DoNew \/ DoConvert \/ DoCmp \/ DoArith \/ DoScalar \/ DoDerived \/ DoFit \/ DoLookup)
+Next == depth < MaxDepth /\ (DoNew \/ DoConvert \/ DoCmp \/ DoArith \/ DoScalar \/ DoDerived \/ DoFit \/ DoLookup \/ DoRate \/ DoTable)
 
 Spec == Init /\ [][Next]_vars
 
